@@ -704,7 +704,7 @@ class StoryInsert(MosFile):
             raise MosMergeError(
                 f"{self.__class__.__name__} error in {self.message_id} - target story not found"
             )
-        ro_story_ids = {story.id for story in ro.stories}
+        ro_story_ids = {Story(story_tag).id for story_tag in ro.base_tag.findall('story')}
         for new_story in self.source_stories:
             if new_story.id in ro_story_ids:
                 msg = f"{self.__class__.__name__} error in {self.message_id} - story already found in running order"
@@ -1629,7 +1629,7 @@ class EAStoryInsert(ElementAction):
                 raise MosMergeError(
                     f"{self.__class__.__name__} error in {self.message_id} - target story not found"
                 )
-        ro_story_ids = {story.id for story in ro.stories}
+        ro_story_ids = {Story(story_tag).id for story_tag in ro.base_tag.findall('story')}
         for new_story in self.stories:
             if new_story.id in ro_story_ids:
                 msg = f"{self.__class__.__name__} error in {self.message_id} - story already found in running order"
